@@ -319,6 +319,20 @@ pub fn gen(rng: &mut Rng, idx: usize, n: usize, thorough: bool) -> String {
         }
         let k = rng.below(len as u64) as usize;
         let v = *rng.pick(&labels);
+        // ite family: two if-then-elses that normalise to the same standard triple (the cache key
+        // of one must not answer the other): ite(!a, c, !b) and ite(a, b, c), in either order
+        if len >= 3 && len + 4 <= nops && rng.chance(1, 12) {
+            let (a, b, c) = (i, j, k);
+            let (na, nb) = (len, len + 1);
+            s.push_str(&format!(" n {a} n {b}"));
+            if rng.coin() {
+                s.push_str(&format!(" i {na} {c} {nb} i {a} {b} {c}"));
+            } else {
+                s.push_str(&format!(" i {a} {b} {c} i {na} {c} {nb}"));
+            }
+            len += 4;
+            continue;
+        }
         let op = match rng.below(if cnf_case { 108 } else { 100 }) {
             100..=107 => cnf_text(&gen_cnf(rng, &labels, maxcl)),
             0..=7 => lit(rng),
